@@ -321,8 +321,14 @@ func objectsToUpload(st storage.Storer, wants, haves []plumbing.Hash) ([]plumbin
 func getShallowCommits(st storage.Storer, heads, clientShallows []plumbing.Hash, depth int, upd *packp.ShallowUpdate) error {
 	var i, curDepth int
 	var commit *object.Commit
-	depths := map[*object.Commit]int{}
+	// Depths are kept per hash: every decode yields a fresh *object.Commit, so
+	// a pointer key never recognises a commit reached along a second path.
+	depths := map[plumbing.Hash]int{}
 	stack := []object.Object{}
+	// A commit first reached at the boundary can be reached again along a
+	// shorter path; upstream flags it SHALLOW and NOT_SHALLOW and then does
+	// not report it as shallow.
+	var shallow []plumbing.Hash
 	notShallow := map[plumbing.Hash]struct{}{}
 
 	for commit != nil || i < len(heads) || len(stack) > 0 {
@@ -340,51 +346,62 @@ func getShallowCommits(st storage.Storer, heads, clientShallows []plumbing.Hash,
 					continue
 				}
 
-				depths[commit] = 0
+				depths[commit.Hash] = 0
 				curDepth = 0
 			} else if len(stack) > 0 {
 				commit = stack[len(stack)-1].(*object.Commit)
 				stack = stack[:len(stack)-1]
-				curDepth = depths[commit]
+				curDepth = depths[commit.Hash]
 			}
 		}
 
 		curDepth++
 
 		if depth != math.MaxInt && curDepth >= depth {
-			upd.Shallows = append(upd.Shallows, commit.Hash)
+			shallow = append(shallow, commit.Hash)
 			commit = nil
 			continue
 		}
 
 		notShallow[commit.Hash] = struct{}{}
 
-		parents := commit.Parents()
+		// The parents are collected first: asking the iterator whether another
+		// parent follows would consume (and lose) that parent.
+		var parents []*object.Commit
+		if err := commit.Parents().ForEach(func(p *object.Commit) error {
+			parents = append(parents, p)
+			return nil
+		}); err != nil {
+			return err
+		}
 		commit = nil
-		for {
-			parent, err := parents.Next()
-			if err == io.EOF {
-				break
-			}
-			if err != nil {
-				return err
-			}
-
-			if depths[parent] != 0 && curDepth >= depths[parent] {
+		for pi, parent := range parents {
+			if d, seen := depths[parent.Hash]; seen && curDepth >= d {
 				continue
 			}
 
-			depths[parent] = curDepth
+			depths[parent.Hash] = curDepth
 
-			if _, err := parents.Next(); err == nil {
+			if pi < len(parents)-1 {
 				stack = append(stack, parent)
 			} else {
 				commit = parent
-				curDepth = depths[commit]
+				curDepth = depths[commit.Hash]
 			}
 		}
 	}
 
+	reported := map[plumbing.Hash]struct{}{}
+	for _, h := range shallow {
+		if _, ok := notShallow[h]; ok {
+			continue
+		}
+		if _, ok := reported[h]; ok {
+			continue
+		}
+		reported[h] = struct{}{}
+		upd.Shallows = append(upd.Shallows, h)
+	}
 	// Only a commit the client holds as shallow can be unshallowed (upstream
 	// send_unshallow); any other "unshallow" line makes git's fetch-pack die.
 	for _, h := range clientShallows {
